@@ -7,6 +7,7 @@ CONSTANTS
   PowMulN = 80
   SimpN = 40
   RuleN = 0
+  HistN = 12
 INIT Init
 NEXT Next
 INVARIANT Export
